@@ -98,6 +98,96 @@ def _number_ok(sub) -> bool:
     return has_digits and sep == {'.', ','}
 
 
+class _Str:
+    """Abstract number string: digits plus at most one separator character (None = integer)."""
+    def __init__(self, sep):
+        self.sep = sep
+
+
+class _Out(Exception):
+    def __init__(self, what):
+        self.what = what
+
+
+def _frac_case(rule, body, vname, flag, sep, flagval):
+    """Abstractly execute the loop body of _convert for one element whose text has the fraction
+    separator `sep` (or none) with the smallest-unit flag = flagval, up to the float() call.
+    Fragment: `'c' in v`, walrus, and/or/not, names, v.replace('a', 'b'[, n]), if, assignment,
+    raise, continue, `v is None`.  Anything else -> AnalysisError."""
+    env = {vname: _Str(sep), flag: flagval}
+
+    def fail(node):
+        raise AnalysisError(rule, f"_convert loop body outside the fragment of the fraction "
+                            f"analysis: `{norm(node)[:80]}`")
+
+    def ev(e):
+        if isinstance(e, ast.Constant):
+            return e.value
+        if isinstance(e, ast.Name):
+            if e.id in env:
+                return env[e.id]
+            fail(e)
+        if isinstance(e, ast.NamedExpr) and isinstance(e.target, ast.Name):
+            env[e.target.id] = ev(e.value)
+            return env[e.target.id]
+        if isinstance(e, ast.BoolOp):
+            v = None
+            for x in e.values:
+                v = ev(x)
+                if isinstance(e.op, ast.And) and not v:
+                    return v
+                if isinstance(e.op, ast.Or) and v:
+                    return v
+            return v
+        if isinstance(e, ast.UnaryOp) and isinstance(e.op, ast.Not):
+            return not ev(e.operand)
+        if isinstance(e, ast.Compare) and len(e.ops) == 1:
+            l, r = ev(e.left), ev(e.comparators[0])
+            op = e.ops[0]
+            if isinstance(op, (ast.In, ast.NotIn)) and isinstance(l, str) and len(l) == 1 \
+                    and not l.isdigit() and isinstance(r, _Str):
+                res = (l == r.sep)
+                return res if isinstance(op, ast.In) else not res
+            if isinstance(op, (ast.Is, ast.IsNot)) and r is None and isinstance(l, _Str):
+                return isinstance(op, ast.IsNot)
+            fail(e)
+        if isinstance(e, ast.Call):
+            if isinstance(e.func, ast.Attribute) and e.func.attr == 'replace' and len(e.args) in (2, 3) \
+                    and not e.keywords:
+                base = ev(e.func.value)
+                a, b = ev(e.args[0]), ev(e.args[1])
+                if isinstance(base, _Str) and isinstance(a, str) and isinstance(b, str) and len(a) == 1 \
+                        and len(b) == 1 and not a.isdigit() and not b.isdigit():
+                    return _Str(b if base.sep == a else base.sep)
+                fail(e)
+            if isinstance(e.func, ast.Name) and e.func.id == 'float' and len(e.args) == 1:
+                v = ev(e.args[0])
+                if isinstance(v, _Str):
+                    raise _Out('float:ok' if v.sep in (None, '.') else f"float() gets a number with {v.sep!r}")
+                fail(e)
+        fail(e)
+
+    def block(stmts):
+        for st in stmts:
+            if isinstance(st, ast.If):
+                block(st.body if ev(st.test) else st.orelse)
+            elif isinstance(st, ast.Raise):
+                raise _Out('raise')
+            elif isinstance(st, ast.Continue):
+                raise _Out('continue')
+            elif isinstance(st, ast.Assign) and len(st.targets) == 1 and isinstance(st.targets[0], ast.Name):
+                env[st.targets[0].id] = ev(st.value)
+            elif isinstance(st, ast.Expr) and isinstance(st.value, ast.Constant):
+                continue
+            else:
+                fail(st)
+    try:
+        block(body)
+    except _Out as o:
+        return o.what
+    return 'end of body without float()'
+
+
 def run(ck):
     ck.explanation = (
         "utils/timeunits.py + utils/tconst.py: both duration patterns are folded from the source "
@@ -313,6 +403,32 @@ def run(ck):
           "',' is replaced by '.' before float()" if okr else
           "the decimal comma is not converted before float()", conv,
           repl[0].ast if repl else conv.node)
+    # ---- R19.3b the fraction test agrees with the separators the patterns admit
+    seps = set()
+    for spec in (trad, iso):
+        for g_ in spec[4]:
+            for op_, av_ in g_['number']:
+                if op_ is OPS.MAX_REPEAT:
+                    inner_ = list(av_[2])
+                    if inner_ and inner_[0][0] is OPS.IN:
+                        seps |= {chr(x[1]) for x in inner_[0][1] if x[0] is OPS.LITERAL}
+    ck.need(R3, bool(seps), "no fraction separator class found in the number groups")
+    body = loop.ast.body
+    bad = []
+    ncase = 0
+    for sep in [None] + sorted(seps):
+        for fl in (True, False):
+            ncase += 1
+            ck.abstract_cases += 1
+            out = _frac_case(R3, body, vname, flag, sep, fl)
+            want = 'raise' if (sep is not None and not fl) else 'float:ok'
+            if out != want:
+                bad.append(f"number with separator {sep!r}, {flag}={fl}: {out} (must be {want})")
+    ck.ob(R3, f"{conv.fid} :: fraction test covers every separator of the pattern", not bad,
+          f"evaluated on {ncase} (separator in {sorted(seps)} or none) x flag cases: a fraction "
+          f"raises exactly when a smaller unit was present, and float() always receives a '.'"
+          if not bad else "; ".join(bad), conv, (frac_raise[0].ast if frac_raise else conv.node))
+
     nomatch = [r for r in raises if r.kinds == {'N:ValueError'} and
                any('match' in t for t, p in cfg.guard_texts(r))]
     ck.ob(R3, f"{conv.fid} :: no match raises", bool(nomatch),
